@@ -308,8 +308,19 @@ impl Axecutor {
                 return Ok(HookResult::Handled);
             }
 
-            // Otherwise, we resize the brk section to the new size
-            let new_length = brk - ax.state.syscalls.brk_start;
+            // Otherwise, we resize the brk section to the new size.
+            // A break below the start of the heap cannot be set; like Linux, we leave the
+            // break where it is and return its current value
+            let new_length = match brk.checked_sub(ax.state.syscalls.brk_start) {
+                Some(new_length) => new_length,
+                None => {
+                    ax.reg_write_64(
+                        RAX,
+                        ax.state.syscalls.brk_start + ax.state.syscalls.brk_length,
+                    )?;
+                    return Ok(HookResult::Handled);
+                }
+            };
             ax.mem_resize_section(ax.state.syscalls.brk_start, new_length)?;
 
             ax.state.syscalls.brk_length = new_length;
